@@ -3,7 +3,9 @@ import vlib, proglib
 
 
 def gen_case(rng, tier):
-    udf = rng.choice([10, 10, 11, 13, 100])
+    # (decimations above 2000 with more entries than that: one level-1 UTC summary chunk then carries more entries than the reader's
+    #  time map holds initially, so the map has to grow more than once while ONE chunk is added)
+    udf = rng.choice([10, 10, 11, 13, 100, 100, 2001, 2500, 4100])
     sid = rng.choice([1, 9, 255])
     dt = rng.choice(["f32", "f64", "u8", "i16", "u1", "u4"])
     rate = rng.choice([1, 1000, 48000, 2000000, 10**9])
@@ -16,6 +18,8 @@ def gen_case(rng, tier):
                     999, 1000, 1001, 2500])
     if tier == "quick":
         n = min(n, 1300)
+    if udf > 2000:
+        n = rng.choice([1999, 2001, 2600, 4097, udf - 1, udf, udf + 1, udf + 600])
     ids = []
     s = offset + rng.choice([0, 0, 17, -3])
     t = rng.choice([0, 2**30 * 1700000000, -2**30 * 5])
@@ -40,6 +44,22 @@ def gen_case(rng, tier):
                 seeks += [rel[b], rel[b] - 1, rel[b - 1]]
     for sk in seeks:
         ops.append("ut %d %d" % (sid, sk))
+    # id -> time conversion through the READER's time map (built from the UTC summary chunks of the file): anchored at every stored
+    # pair (exactly), and between two neighbouring anchors within their times (Properties_C12: tmap anchored / monotone).
+    # Entries (op index, lo, hi): rc must be 0 and lo <= result <= hi.
+    anchors = []
+    if len(ids) >= 1:
+        pick = set([0, len(ids) - 1] + [rng.randrange(len(ids)) for _ in range(12)])
+        for b in (1024, 2000, 2048, 4096, udf):
+            for d in (-1, 0, 1):
+                if 0 <= b + d < len(ids):
+                    pick.add(b + d)
+        for j in sorted(pick):
+            anchors.append((len(ops), ids[j][1], ids[j][1]))
+            ops.append("s2t %d %d" % (sid, rel[j]))
+            if j + 1 < len(ids) and rel[j + 1] - rel[j] >= 2 and rng.random() < 0.5:
+                anchors.append((len(ops), ids[j][1], ids[j + 1][1]))
+                ops.append("s2t %d %d" % (sid, (rel[j] + rel[j + 1]) // 2))
     ops.append("ut %d -1000000000000 %d" % (sid, rng.choice([1, 2, udf, udf + 1])))
     ops.append("rclose")
-    return ";".join(ops), dict(n=n, udf=udf, offset=offset, dist=["n%d" % (0 if n == 0 else 1 if n < udf else 2 if n < udf * udf else 3)], trivial=(n == 0))
+    return ";".join(ops), dict(n=n, udf=udf, offset=offset, anchors=anchors, dist=["n%d" % (0 if n == 0 else 1 if n < udf else 2 if n < udf * udf else 3)], trivial=(n == 0))
